@@ -63,6 +63,11 @@ RULE = (
     "capture, nested - rendered directly (4 modes) must equal the render through 1..3 "
     "descendants that override nothing (p1-p3) and through descendants overriding with "
     "{{ block.super }} only (s1-s4), sync/async, both loaders; "
+    "every 8th case (4th of struct and blank) is ALSO run in another SPELLING: block names "
+    "bare / single- / double-quoted, half of them renamed to names with spaces, unicode or "
+    "keyword-like words ('required', 'if', 'true', 'for', 'nil'), endblock names spelled "
+    "independently, `required` after each spelling, whitespace-control markers on the "
+    "block tags, {% liquid %} line form, extends targets quoted both ways; "
     "data d = <D&\"'> are added for ALL ctl cases, every 4th case that uses block.super "
     "and every 16th case (block bodies always contain literal < and >); samp = seeded random chains of depth 2..8 (mostly <= 4) over 3 names with "
     "random nesting, if/for wrappers, block.super once/twice, variable reads.  "
@@ -132,6 +137,12 @@ MODES = ("sync", "async", "sync+cache", "async+cache")
 ESC_MODES = ("sync+escape", "async+escape")  # Environment(auto_escape=True), hostile data
 NOSUP_MODES = ("sync+nosup", "async+nosup", "sync+cache+nosup", "async+cache+nosup")
 ESC_D = "<D&\"'>"
+SPELL_EVERY = {"struct": 4, "blank": 4}
+EXOTIC_NAMES = [
+    {"a": "my block", "b": "required", "x": "if", "o": "true", "c": "é1", "e": "x y", "z": "nil"},
+    {"a": "required", "b": "a-b", "x": "my block", "o": "é1", "c": "if", "e": "true", "z": "a.b"},
+    {"a": "if", "b": "é1", "x": "required", "o": "x y", "c": "true", "e": "my block", "z": "for"},
+]
 PATH_EVERY = {"cyc": 2}  # every n-th case is also run with path-like template names (default 8)
 DATA = {"d": "D", "yes": True, "no": False}
 
@@ -313,6 +324,7 @@ class Runner:
         self.standalone_dc = False
         self.standalone_participated = False
         self.case_no = 0
+        self.style_cur: Any = None
         self.esc_cur = False
         self.what_prefix = ""
         self.last_Eesc: Any = None
@@ -535,6 +547,28 @@ class Runner:
             k2 = self._case_one(family + "+paths", p2, e2, d2)
             self.what_prefix = ""
             key = key or k2
+        every = SPELL_EVERY.get(family, 8)
+        if n % every == every // 2 and family != "cont":
+            # the same case written differently: quoted / keyword-like / spaced / unicode
+            # block names, endblock names, whitespace control, {% liquid %} line form
+            v = n // every
+            p3 = M.rename_blocks(prog, EXOTIC_NAMES[v % len(EXOTIC_NAMES)]) if v % 2 else prog
+            self.what_prefix = "" if key else "spelling:"
+            self.style_cur = (v, not self.ws_cur)
+            M.set_style(self.style_cur)
+            try:
+                self.ctx.count("spelling_cases")
+                srcs = "".join(M.emit(p3).values())
+                if " required " in srcs or " required\n" in srcs:
+                    self.ctx.count("spelling_cases_with_required")
+                if "block '" in srcs or 'block "' in srcs:
+                    self.ctx.count("spelling_cases_quoted_name")
+                k3 = self._case_one(family + "+spelling", p3, entry, data)
+            finally:
+                M.set_style(None)
+                self.style_cur = None
+                self.what_prefix = ""
+            key = key or k3
         return key
 
     def _case_one(self, family: str, prog: dict, entry: str, data: dict) -> str | None:
@@ -618,6 +652,7 @@ class Runner:
             "family": family, "prog": wprog, "entry": entry, "data": data,
             "esc": self.esc_cur, "what_prefix": self.what_prefix,
             "nosup": self.nosup_cur, "ws": self.ws_cur,
+            "style": list(self.style_cur) if self.style_cur else None,
             "sources": M.emit(wprog), "expected": list(wE.sig()),
             "observed": {m: list(a) for m, a in wobs.items()},
         })
@@ -1931,6 +1966,9 @@ def floors(tier: str) -> dict[str, int]:
         "set:blank_enclosures": 11,
         "set:blank_body_kinds": 6,
         "nosuppress_cases": 3_000,
+        "spelling_cases": 6_000 if q else 80_000,
+        "spelling_cases_with_required": 2_000 if q else 20_000,
+        "spelling_cases_quoted_name": 4_000 if q else 50_000,
         "path_named_chains": 3_000 if q else 50_000,
         "path_named_cyclic": 500,
         "path_named_histories": 1_000 if q else 30_000,
@@ -2002,6 +2040,8 @@ def replay(wit: dict[str, Any], ctx: Ctx) -> None:
         prog, entry, data = wit["prog"], wit["entry"], wit.get("data") or DATA
         r.esc_cur = bool(wit.get("esc"))
         r.nosup_cur = bool(wit.get("nosup"))
+        if wit.get("style"):
+            M.set_style((int(wit["style"][0]), bool(wit["style"][1])))
         r.ws_cur = bool(wit.get("ws"))
         r.what_prefix = wit.get("what_prefix") or ""
         what, E, obs = r.evaluate(prog, entry, data)
